@@ -116,9 +116,10 @@ def default_targets(prop: str):
     if n == 7 or n == 8: t += ['Gen/ModbusGen.vo', 'Gen/ProtoGen.vo']
     if n == 9: t += ['Model/FailCount.vo', 'Model/InvProgInst.vo']
     if n in (11, 12, 13, 16): t += ['Model/Sensors.vo', 'Gen/TablesGen.vo']
-    if n in (14, 15): t += ['Model/ETCaps.vo']
+    if n == 16: t += ['Model/Settings.vo']
+    if n in (14, 15): t += ['Model/ETCaps.vo', 'Gen/DTGen.vo']
     if n in (17, 19): t += ['Model/Sensors.vo', 'Model/Settings.vo', 'Gen/SettingsGen.vo']
-    if n == 19: t += ['Model/ModesInst.vo']
+    if n in (18, 19): t += ['Model/ModesInst.vo']
     if n == 20: t += ['Model/TwoObjInst.vo']
     return t
 
